@@ -19,6 +19,9 @@ pub struct Case {
     /// the same authentication object (Ntlm) first completes an honest session; in the judged second session the
     /// server answers the final round with the reply it gave in the first one (a recorded reply replayed)
     pub replay_after_reuse: bool,
+    /// the server does not know the password (ServerParams::passwordless): whatever it sends in the final round must be
+    /// refused, the honestly computed key + 1 included
+    pub passwordless: bool,
 }
 
 pub struct C01 {
@@ -78,6 +81,11 @@ fn structured(other_keys: &[Vec<u8>]) -> Vec<FinalReply> {
         FinalReply::Version(0),
         FinalReply::Version(3),
         FinalReply::Version(6),
+        FinalReply::WrongWithVersion(2),
+        FinalReply::WrongWithVersion(3),
+        FinalReply::WrongWithVersion(5),
+        FinalReply::WrongWithVersion(6),
+        FinalReply::WrongWithVersion(0x7FFF_FFFF),
         FinalReply::ZeroExtended(1),
         FinalReply::ZeroExtended(2),
         FinalReply::Eof,
@@ -208,14 +216,14 @@ impl Prop for C01 {
                 let len = honest.len();
                 self.honest_len.insert((ci, format!("{:?}", cert)), len);
                 let full = tier == Tier::Thorough || (ci == 0 && cert == Cert::A) || (ci == 4 && cert == Cert::B);
-                cs.push(Case { cfg_id: ci, cert, reply: FinalReply::Honest, challenge_without: 0, replay_after_reuse: false });
+                cs.push(Case { cfg_id: ci, cert, reply: FinalReply::Honest, challenge_without: 0, replay_after_reuse: false, passwordless: false });
                 let others: Vec<Vec<u8>> = match cert {
                     Cert::A => vec![key_b.clone(), key_m.clone()],
                     Cert::B => vec![key_a.clone(), key_m.clone()],
                     _ => vec![key_a.clone(), key_b.clone()],
                 };
                 for r in structured(&others) {
-                    cs.push(Case { cfg_id: ci, cert, reply: r, challenge_without: 0, replay_after_reuse: false });
+                    cs.push(Case { cfg_id: ci, cert, reply: r, challenge_without: 0, replay_after_reuse: false, passwordless: false });
                 }
                 // every proper prefix of the value, correctly sealed (the value must be compared as a whole)
                 let klen = match cert {
@@ -225,19 +233,19 @@ impl Prop for C01 {
                     _ => key_a.len(),
                 };
                 for n in (0..klen).step_by(if full { 1 } else { 29 }) {
-                    cs.push(Case { cfg_id: ci, cert, reply: FinalReply::SealedPrefix(n), challenge_without: 0, replay_after_reuse: false });
+                    cs.push(Case { cfg_id: ci, cert, reply: FinalReply::SealedPrefix(n), challenge_without: 0, replay_after_reuse: false, passwordless: false });
                 }
                 let step = if full { 1 } else { 13 };
                 for bit in (0..len * 8).step_by(step) {
-                    cs.push(Case { cfg_id: ci, cert, reply: FinalReply::FlipBit(bit), challenge_without: 0, replay_after_reuse: false });
+                    cs.push(Case { cfg_id: ci, cert, reply: FinalReply::FlipBit(bit), challenge_without: 0, replay_after_reuse: false, passwordless: false });
                 }
                 for n in (0..len).step_by(if full { 1 } else { 7 }) {
-                    cs.push(Case { cfg_id: ci, cert, reply: FinalReply::Truncate(n), challenge_without: 0, replay_after_reuse: false });
+                    cs.push(Case { cfg_id: ci, cert, reply: FinalReply::Truncate(n), challenge_without: 0, replay_after_reuse: false, passwordless: false });
                 }
                 if full {
                     for d in -256i64..=256 {
                         if d != 1 {
-                            cs.push(Case { cfg_id: ci, cert, reply: FinalReply::Offset(d), challenge_without: 0, replay_after_reuse: false });
+                            cs.push(Case { cfg_id: ci, cert, reply: FinalReply::Offset(d), challenge_without: 0, replay_after_reuse: false, passwordless: false });
                         }
                     }
                     let keylen = if cert == Cert::B { key_b.len() } else { key_a.len() };
@@ -246,7 +254,7 @@ impl Prop for C01 {
                             if j == 0 && !neg {
                                 continue; // + 2^0 is the honest value
                             }
-                            cs.push(Case { cfg_id: ci, cert, reply: FinalReply::Pow2(j, neg), challenge_without: 0, replay_after_reuse: false });
+                            cs.push(Case { cfg_id: ci, cert, reply: FinalReply::Pow2(j, neg), challenge_without: 0, replay_after_reuse: false, passwordless: false });
                         }
                     }
                 }
@@ -255,17 +263,17 @@ impl Prop for C01 {
         // carry propagation of key + 1: a raw 32-byte key starting with 0xFF (Ed25519), every offset -300..300
         let key_ff = acceptor(Cert::Ed25519FF)?.1;
         for ci in [0usize, 1] {
-            cs.push(Case { cfg_id: ci, cert: Cert::Ed25519FF, reply: FinalReply::Honest, challenge_without: 0, replay_after_reuse: false });
+            cs.push(Case { cfg_id: ci, cert: Cert::Ed25519FF, reply: FinalReply::Honest, challenge_without: 0, replay_after_reuse: false, passwordless: false });
             for r in structured(&[key_a.clone(), key_b.clone()]) {
                 // a "prefix" as long as the (32-byte) key is the honest value itself
                 if matches!(r, FinalReply::SealedPrefix(n) if n >= key_ff.len()) {
                     continue;
                 }
-                cs.push(Case { cfg_id: ci, cert: Cert::Ed25519FF, reply: r, challenge_without: 0, replay_after_reuse: false });
+                cs.push(Case { cfg_id: ci, cert: Cert::Ed25519FF, reply: r, challenge_without: 0, replay_after_reuse: false, passwordless: false });
             }
             for d in -300i64..=300 {
                 if d != 1 {
-                    cs.push(Case { cfg_id: ci, cert: Cert::Ed25519FF, reply: FinalReply::Offset(d), challenge_without: 0, replay_after_reuse: false });
+                    cs.push(Case { cfg_id: ci, cert: Cert::Ed25519FF, reply: FinalReply::Offset(d), challenge_without: 0, replay_after_reuse: false, passwordless: false });
                 }
             }
             for j in 0..key_ff.len() * 8 {
@@ -273,7 +281,7 @@ impl Prop for C01 {
                     if j == 0 && !neg {
                         continue;
                     }
-                    cs.push(Case { cfg_id: ci, cert: Cert::Ed25519FF, reply: FinalReply::Pow2(j, neg) , challenge_without: 0, replay_after_reuse: false });
+                    cs.push(Case { cfg_id: ci, cert: Cert::Ed25519FF, reply: FinalReply::Pow2(j, neg) , challenge_without: 0, replay_after_reuse: false, passwordless: false });
                 }
             }
         }
@@ -281,21 +289,32 @@ impl Prop for C01 {
         for without in [vref::ntlm::F_SIGN, vref::ntlm::F_ALWAYS_SIGN, vref::ntlm::F_SEAL, vref::ntlm::F_SIGN | vref::ntlm::F_ALWAYS_SIGN, vref::ntlm::F_56, vref::ntlm::F_TARGET_TYPE_SERVER] {
             for ci in [0usize, 1, 4] {
                 let cert = Cert::A;
-                cs.push(Case { cfg_id: ci, cert, reply: FinalReply::Honest, challenge_without: without, replay_after_reuse: false });
+                cs.push(Case { cfg_id: ci, cert, reply: FinalReply::Honest, challenge_without: without, replay_after_reuse: false, passwordless: false });
                 for r in structured(&[key_b.clone(), key_m.clone()]) {
-                    cs.push(Case { cfg_id: ci, cert, reply: r, challenge_without: without, replay_after_reuse: false });
+                    cs.push(Case { cfg_id: ci, cert, reply: r, challenge_without: without, replay_after_reuse: false, passwordless: false });
                 }
                 // every bit of the 16-byte signature that precedes the sealed value, and a few beyond
                 let len = *self.honest_len.get(&(ci, format!("{:?}", cert))).unwrap_or(&0);
                 for bit in (0..len * 8).step_by(if tier == Tier::Thorough { 1 } else { 5 }) {
-                    cs.push(Case { cfg_id: ci, cert, reply: FinalReply::FlipBit(bit), challenge_without: without, replay_after_reuse: false });
+                    cs.push(Case { cfg_id: ci, cert, reply: FinalReply::FlipBit(bit), challenge_without: without, replay_after_reuse: false, passwordless: false });
+                }
+            }
+        }
+        // a server that does not know the password: it takes the EncryptedRandomSessionKey field for the session key
+        // (all it can do), under every CHALLENGE flag set that changes how that field is produced or the keys derived
+        for without in [0u32, vref::ntlm::F_KEY_EXCH, vref::ntlm::F_KEY_EXCH | vref::ntlm::F_SEAL, vref::ntlm::F_KEY_EXCH | vref::ntlm::F_128, vref::ntlm::F_KEY_EXCH | vref::ntlm::F_ESS, vref::ntlm::F_128 | vref::ntlm::F_56, vref::ntlm::F_ESS, vref::ntlm::F_KEY_EXCH | vref::ntlm::F_SIGN | vref::ntlm::F_ALWAYS_SIGN] {
+            for ci in [0usize, 1, 4] {
+                for cert in [Cert::A, Cert::B] {
+                    for reply in [FinalReply::Honest, FinalReply::Version(6), FinalReply::Offset(0), FinalReply::ClientDirectionKeys] {
+                        cs.push(Case { cfg_id: ci, cert, reply, challenge_without: without, replay_after_reuse: false, passwordless: true });
+                    }
                 }
             }
         }
         // one authentication object used for two sessions: nothing of the first may make a replayed reply acceptable
         for ci in [0usize, 1, 2, 3] {
             for cert in [Cert::A, Cert::B] {
-                cs.push(Case { cfg_id: ci, cert, reply: FinalReply::Honest, challenge_without: 0, replay_after_reuse: true });
+                cs.push(Case { cfg_id: ci, cert, reply: FinalReply::Honest, challenge_without: 0, replay_after_reuse: true, passwordless: false });
             }
         }
         self.cases = cs;
@@ -319,10 +338,10 @@ impl Prop for C01 {
     }
     fn describe(&self, idx: u64) -> Value {
         let c = &self.cases[idx as usize];
-        json!({"idx": idx, "config": configs()[c.cfg_id], "certificate": c.cert, "final_round_reply": c.reply, "challenge_flags_left_out": format!("{:#x}", c.challenge_without)})
+        json!({"idx": idx, "config": configs()[c.cfg_id], "certificate": c.cert, "final_round_reply": c.reply, "server_knows_the_password": !c.passwordless, "challenge_flags_left_out": format!("{:#x}", c.challenge_without)})
     }
     fn rule(&self) -> String {
-        "cases = (connector configuration, server certificate, reply of the server in the final CredSSP round). Configurations: 3 credential sets x password|hash x {plain, restricted admin, blank credentials}; certificates RSA-2048, EC P-256, EC P-521 (every DER length of the round then lies in 128..255) (+ an untrusted RSA key for the relay case). Replies: honest; every single-bit flip of the honest TSRequest; key+d for every d in [-256,256] except 1 and key +- 2^j for every j up to 248, correctly sealed; sealed with client-to-server keys / another session key / wrong signing key / wrong sealing key / advanced cipher stream; honest reply for another certificate's key (relay); reflection of the client's token; every truncation; extensions; the honest value re-encoded as BER-but-not-DER (long-form lengths everywhere / only on the version field, exactly one redundant leading zero octet on every length / on the outer SEQUENCE / on the OCTET STRING, indefinite-length outer SEQUENCE / [3] wrapper, constructed OCTET STRING) which CredSSP's DER rules make a malformed encoding and which must be refused; extra field, missing/empty pubKeyAuth, wrong context tag, versions 0/3/6; EOF. Full alphabet for two configurations in quick (every 13th bit / 7th truncation elsewhere), for all in thorough. Also: an Ed25519 certificate whose raw key starts with 0xFF (carry of key+1) with every offset -300..300 and +-2^j; the CHALLENGE of the earlier round leaving out SIGN / ALWAYS_SIGN / SEAL / 56 / TARGET_TYPE flags x structured replies x bit flips. Also: one authentication object (Ntlm) used for two sessions through x224::Client::connect, the second server replaying the first server's final reply (4 configurations x 2 certificates). Oracle: honest => credentials released and well formed; must-reject => connect returns Err, the server's TLS endpoint receives zero application bytes after its reply, not one raw byte (TLS alert or closure record) is written on the transport after it, and the client does not ask the (still open) transport for more bytes after the reply was delivered; don't-care (same integer, other spelling) => if accepted the value was right. Non-trivial: every reply but the honest one.".into()
+        "cases = (connector configuration, server certificate, reply of the server in the final CredSSP round). Configurations: 3 credential sets x password|hash x {plain, restricted admin, blank credentials}; certificates RSA-2048, EC P-256, EC P-521 (every DER length of the round then lies in 128..255) (+ an untrusted RSA key for the relay case). Replies: honest; every single-bit flip of the honest TSRequest; key+d for every d in [-256,256] except 1 and key +- 2^j for every j up to 248, correctly sealed; sealed with client-to-server keys / another session key / wrong signing key / wrong sealing key / advanced cipher stream; honest reply for another certificate's key (relay); reflection of the client's token; every truncation; extensions; the honest value re-encoded as BER-but-not-DER (long-form lengths everywhere / only on the version field, exactly one redundant leading zero octet on every length / on the outer SEQUENCE / on the OCTET STRING, indefinite-length outer SEQUENCE / [3] wrapper, constructed OCTET STRING) which CredSSP's DER rules make a malformed encoding and which must be refused; extra field, missing/empty pubKeyAuth, wrong context tag, versions 0/3/6; EOF. Full alphabet for two configurations in quick (every 13th bit / 7th truncation elsewhere), for all in thorough. Also: an Ed25519 certificate whose raw key starts with 0xFF (carry of key+1) with every offset -300..300 and +-2^j; the CHALLENGE of the earlier round leaving out SIGN / ALWAYS_SIGN / SEAL / 56 / TARGET_TYPE flags x structured replies x bit flips. Also: a server that does not know the password and takes the EncryptedRandomSessionKey field of the AUTHENTICATE message for the session key, under 8 CHALLENGE flag sets (with and without KEY_EXCH, SEAL, 128, 56, extended session security) x 4 replies sealed under those keys: all must be refused; wrong values sealed correctly in TSRequests announcing CredSSP versions 2, 3, 5, 6, 2^31-1. Also: one authentication object (Ntlm) used for two sessions through x224::Client::connect, the second server replaying the first server's final reply (4 configurations x 2 certificates). Oracle: honest => credentials released and well formed; must-reject => connect returns Err, the server's TLS endpoint receives zero application bytes after its reply, not one raw byte (TLS alert or closure record) is written on the transport after it, and the client does not ask the (still open) transport for more bytes after the reply was delivered; don't-care (same integer, other spelling) => if accepted the value was right. Non-trivial: every reply but the honest one.".into()
     }
     fn assumptions(&self) -> Vec<String> {
         vec![
@@ -343,7 +362,7 @@ impl Prop for C01 {
         if c.replay_after_reuse {
             return replay_after_reuse(&cfg, c.cert);
         }
-        let mut p = ServerParams { selected: 2, final_reply: c.reply.clone(), ..Default::default() };
+        let mut p = ServerParams { selected: 2, final_reply: c.reply.clone(), passwordless: c.passwordless, ..Default::default() };
         p.ntlm.flags &= !c.challenge_without;
         let t = match tls_connect(&cfg, p, vec![], c.cert) {
             Ok(t) => t,
@@ -379,6 +398,10 @@ impl Prop for C01 {
         if class == 0 && c.challenge_without != 0 {
             // a server leaving out a flag the client asked for: the client may refuse to go on
             class = 2;
+        }
+        if c.passwordless {
+            // the server could not know the session key: nothing it says proves anything
+            class = 1;
         }
         // a client that keeps reading after the final reply would wait for ever on a live connection
         let waits = {
